@@ -12,7 +12,7 @@ PROP = "C18"
 NEED_JSONSCHEMA = True
 SHARDS = {"quick": 8, "thorough": 16}
 TIME_CAP = {"quick": 70, "thorough": 900}
-REQUIRED = ["all_refs_programs", "per_call_schema_programs", "semantic_comparisons", "vocabulary_walks", "programs", "version:DRAFT_2019_09", "version:DRAFT_7", "version:OPEN_API_3_0", "version:OPEN_API_3_1",
+REQUIRED = ["oas30_value_shape_walks", "all_refs_programs", "per_call_schema_programs", "semantic_comparisons", "vocabulary_walks", "programs", "version:DRAFT_2019_09", "version:DRAFT_7", "version:OPEN_API_3_0", "version:OPEN_API_3_1",
             "kw:prefixItems-source", "kw:dependentRequired-source", "kw:const-source", "kw:$defs-source", "kw:type-array-source", "nested_positions_walked", "merged_definitions_walks"]
 RULE = ("program space of C17 (every keyword the builder emits: tuples/prefixItems, const/enum, type arrays, dependentRequired, patternProperties, unevaluatedProperties, "
         "$defs/$ref, anyOf/oneOf/allOf, nested in properties / items / $defs / additionalProperties) x versions {2019-09, draft-07, OpenAPI 3.0, OpenAPI 3.1} x "
@@ -41,9 +41,27 @@ def oas30_to_draft7(s):
             out[k] = v
         else:
             out[k] = oas30_to_draft7(v)
+    # exclusive bounds are boolean modifiers of minimum / maximum in OpenAPI 3.0 (draft-04 style); a numeric value there is not
+    # understood by a 3.0 validator (reported by the value-shape walker), it is ignored here
+    for bound, exclusive in (("minimum", "exclusiveMinimum"), ("maximum", "exclusiveMaximum")):
+        if exclusive in out:
+            flag = out.pop(exclusive)
+            if flag is True and bound in out:
+                out[exclusive] = out.pop(bound)
     if out.pop("nullable", False):
         out = {"anyOf": [out, {"type": "null"}]}
     return out
+
+
+def oas30_value_shapes(doc):
+    """keywords of the OpenAPI 3.0 schema object whose value has the shape of another dialect: [(path, keyword)]"""
+    from vf import jsonschema_o as jo
+    bad = []
+    for path, sub in jo.subschemas(doc):
+        for kw in ("exclusiveMinimum", "exclusiveMaximum"):
+            if kw in sub and not isinstance(sub[kw], bool):
+                bad.append((path, kw))
+    return bad
 
 
 def source_keywords(doc, counter):
@@ -148,6 +166,12 @@ def check_program(env, prog, label, ndata):
             if bad:
                 kws = sorted({k for _, k in bad})
                 env.violation({"kind": "foreign-keyword", "version": vname, "keywords": kws[:4]}, {**wit, "positions": [["/".join(map(str, p)), k] for p, k in bad[:6]], "schema": whole})
+            if dialect == "oas-3.0":
+                env.count("oas30_value_shape_walks")
+                shapes = oas30_value_shapes(whole)
+                if shapes:
+                    env.violation({"kind": "keyword-value-of-another-dialect", "version": vname, "keywords": sorted({k for _, k in shapes})[:4]},
+                                  {**wit, "positions": [["/".join(map(str, p_)), k] for p_, k in shapes[:6]], "schema": whole})
             prefix = c17.PREFIX[vname]
             wrong = [r for _, r in jo.refs_of(whole) if not r.startswith(prefix)]
             if wrong:
